@@ -54,6 +54,10 @@ func genC13(seed uint64, index int, tier string) *run.Plan {
 	if g.Intn(3) == 0 {
 		p.P["stale_pm"] = []int{200, 600}[g.Intn(2)]
 	}
+	if g.Intn(5) == 0 {
+		// every connection learns its first head late: the first refreshes see heads of 0 everywhere
+		p.P["hold_info_ms"] = []int{11000, 16000, 27000}[g.Intn(3)]
+	}
 	for s := 0; s < ns; s++ {
 		p.P[fmt.Sprintf("s%d_rtt_us", s)] = []int{200, 1000, 5000, 20000, 80000}[g.Intn(5)] + 13*s + 4*g.Intn(23)
 		p.P[fmt.Sprintf("s%d_lag_ms", s)] = []int{0, 0, 30, p.P["block_ms"], p.P["block_ms"]*2 + 50, p.P["block_ms"] * 3}[g.Intn(6)]
@@ -167,7 +171,7 @@ func execC13(t *testing.T, w *core.World, p *run.Plan, r *run.Result) {
 	for i := 0; i < ns; i++ {
 		s := litesrv.New(w, serverKeyFromSeed(p.Seed, i), sch, i, head0)
 		rtt := p.Get(fmt.Sprintf("s%d_rtt_us", i), 1000)
-		s.Beh = litesrv.Behaviour{PongDelayUs: rtt / 2, StaleInfoPermille: p.Get("stale_pm", 0)}
+		s.Beh = litesrv.Behaviour{PongDelayUs: rtt / 2, StaleInfoPermille: p.Get("stale_pm", 0), HoldInfoAfter: 1, HoldInfoMs: p.Get("hold_info_ms", 0)}
 		h := w.Net.AddHost(fmt.Sprintf("sim:%d", i), s)
 		s.Host = h
 		h.Latency[core.C2S] = core.LatencyModel{BaseUs: rtt / 4}
@@ -411,6 +415,9 @@ func execC13(t *testing.T, w *core.World, p *run.Plan, r *run.Result) {
 		}
 		if len(elig) < len(b.Conns) {
 			w.Probe("refresh-with-ineligible-conn")
+		}
+		if maxHead == 0 && len(b.Conns) > 1 {
+			w.Probe("refresh-with-all-heads-zero")
 		}
 		if after.BestID != b.BestID {
 			w.Probe("best-switched")
@@ -694,6 +701,8 @@ func execC13(t *testing.T, w *core.World, p *run.Plan, r *run.Result) {
 		hosts[i].Refuse = false
 		frozen[i] = false
 		servers[i].Beh.NoPong = false
+		servers[i].Beh.HoldInfoMs = 0
+		servers[i].Beh.StaleInfoPermille = 0
 		servers[i].SetHead(globalHead)
 	}
 	w.Sched.DisableStalls()
@@ -830,12 +839,35 @@ func execC13(t *testing.T, w *core.World, p *run.Plan, r *run.Result) {
 	// head register: linearizability against a max-register per connection (porcupine)
 	if !p.Free && len(regs) > 0 {
 		var pops []porcupine.Operation
-		end := w.Steps + 1
-		for i, e := range regs {
-			ret := e.ret
-			if ret < 0 {
-				ret = end // never observed as applied: concurrent with everything after its call
+		// Prune the write history: a write the connection never applied (answer lost, connection dropped) cannot
+		// explain any read (a read returns a head the connection stored), and repeated writes of one value to one
+		// connection collapse into the earliest one. Without this the history is mostly mutually concurrent writes
+		// and the search explodes (porcupine's own timeout is useless here: inside the bubble its timer never fires
+		// while its workers spin).
+		type wkey struct {
+			conn int
+			v    uint32
+		}
+		firstWrite := map[wkey]int{}
+		var hist []regEvent
+		for _, e := range regs {
+			if e.write {
+				if e.ret < 0 {
+					continue
+				}
+				k := wkey{e.conn, e.v}
+				if j, ok := firstWrite[k]; ok {
+					if e.ret < hist[j].ret {
+						hist[j].ret = e.ret
+					}
+					continue
+				}
+				firstWrite[k] = len(hist)
 			}
+			hist = append(hist, e)
+		}
+		for i, e := range hist {
+			ret := e.ret
 			if ret <= e.call {
 				ret = e.call + 1
 			}
@@ -884,9 +916,10 @@ func execC13(t *testing.T, w *core.World, p *run.Plan, r *run.Result) {
 				},
 				Equal: func(a, b interface{}) bool { return a.(uint32) == b.(uint32) },
 			}
-			res := porcupine.CheckOperationsTimeout(model, pops, 20*time.Second)
+			res := porcupine.CheckOperations(model, pops)
+			_ = porcupine.Unknown
 			w.Probe("porcupine-histories")
-			if res == porcupine.Illegal {
+			if !res {
 				hist := ""
 				for _, e := range regs {
 					k := "R"
@@ -899,8 +932,6 @@ func execC13(t *testing.T, w *core.World, p *run.Plan, r *run.Result) {
 					hist = hist[:3000]
 				}
 				w.Violate("C13.head", "C13.head|register-not-linearizable", fmt.Sprintf("the heads returned by BestMasterchainClient are not explained by the heads the servers handed to each connection (max-register, %d operations):%s", len(pops), hist))
-			} else if res == porcupine.Unknown {
-				w.Probe("porcupine-unknown")
 			}
 		}
 	}
